@@ -262,3 +262,12 @@ Theorem C20_text_grammar_decidable : forall s F,
   parse_fmt s = Some F <-> (fmt_ok F = true /\ s = fmt_string F).
 Proof. exact text_grammar_decidable_all. Qed.
 Print Assumptions C20_text_grammar_decidable.
+
+(* the usual reading of the placeholders: for an integer part of a '#' then b '0'
+   the digits (L of them) are padded with zeros to b places, for a fraction part of
+   a '0' then b '#' the digits (L left after dropping zeros) are filled up to a places *)
+Theorem C20_text_padding : forall a b L : nat,
+  zeros_of (firstn (a + b - L) (repeat 35 a ++ repeat 48 b)) = repeat 48 (b - L)
+  /\ zeros_of (skipn L (repeat 48 a ++ repeat 35 b)) = repeat 48 (a - L).
+Proof. exact text_padding_all. Qed.
+Print Assumptions C20_text_padding.
